@@ -14,8 +14,14 @@
 (*   macLen  "full" | "trunc" (a proper prefix of the genuine MAC)             *)
 (*   dt      TSIG time minus the server clock, in seconds                      *)
 (*   tamper  what was altered after signing ("none", or a region name)         *)
+(*   hdr     header bits the sender set BEFORE signing: "plain" | "rd" | "cd"  *)
+(*           | "rdcd" (they are covered by the MAC and change nothing)         *)
 (* and the zone policy p = [allowUpdate, axfr ("deny"|"all"|"signed"), fudge,  *)
-(* store ("sqlite" | "memory": which zone handler serves the zone)].           *)
+(* store ("sqlite" | "memory": which zone handler serves the zone), start      *)
+(* ("direct": handler built by the harness | "first": loaded from its          *)
+(* configuration as the server binary does | "restart": loaded a second time,  *)
+(* from the journal of the first run) -- the policy holds however the zone was *)
+(* brought up].                                                                *)
 EXTENDS Naturals, Integers, Sequences, FiniteSets
 
 Configured == {"k1", "k2"}
@@ -68,4 +74,15 @@ C13_EffectOk(r, p, effect) == effect => MayEffect(r, p)
 ReplyMustBeSigned(r, p) == r.signed /\ Authentic(r, p) /\ ~(r.op \in {"axfr", "ixfr"} /\ p.axfr = "all")
 C13_ReplyOk(r, p, effect, o) ==
     (effect /\ ReplyMustBeSigned(r, p)) => (o.signed /\ o.verifies /\ o.modifiedAccepted = 0)
+
+(* RFC 8945 5.3.2: a reply to a request whose key or MAC did not verify (BADKEY, *)
+(* BADSIG) is NOT signed -- a server that computes a MAC over data chosen by an  *)
+(* unauthenticated sender hands out forgeries ("signed so that the client-side   *)
+(* verifier accepts it" presupposes that only the key holder's requests get a    *)
+(* MAC).  BADTIME replies are signed (5.2.3); a proper prefix of the genuine MAC *)
+(* still shows possession of the key, so truncation is left open here.           *)
+Verified(r) ==
+    r.signed /\ r.keyName \in Configured /\ r.macKey = r.keyName /\ r.alg = "cfg"
+    /\ r.tamper \in (FreeTampers \cup EitherTampers)
+C13_NoOracleOk(r, macPresent) == macPresent => Verified(r)
 =============================================================================
